@@ -1,4 +1,5 @@
 import GoSSE.Proofs.JoeMeasure
+import GoSSE.Proofs.GenEquivJoeFanout
 /-!
 # C07 — Shutdown terminates everything; no provider call blocks forever
 
@@ -266,5 +267,24 @@ theorem shutdown_results {c : Cfg} {s s' : St} (h : Reachable c s) (k : ShutId) 
       simp only [hnb, Bool.false_eq_true, if_false]
       exact (closeAll_subM hi hg.1 s.subscribers 0).2.2
     · simp at hs
+
+/-! ### `closeSubscribers` and `removeSubscriber`, as translated from joe.go -/
+
+/-- **`closeSubscribers` as translated** (what the loop's deferred exit runs): whatever the order in which the map of
+subscribers is ranged over, afterwards none of the visited keys is a subscriber any more, and — for a duplicate-free
+order — the channel log has grown by exactly one close per subscriber that was registered, in that order: every pending
+`Subscribe` is released, no channel is closed twice (a second close would panic). `removeSubscriber` (`removeSpec`) does
+nothing to a key that is not registered — the guard that makes a late unsubscription harmless. -/
+theorem translated_closeSubscribers {σ : Type} (fuel : Nat) (j : Gen.Joe σ) (order : List Nat) (hf : order.length < fuel)
+    (hnd : order.Nodup) :
+    ∃ j', Gen.Joe_closeSubscribers fuel j order = .ok j' ∧
+      (∀ k ∈ order, GoRT.mapGet j'.subscribers k = none) ∧
+      j'.chlog = j.chlog ++ (order.filter fun k => (GoRT.mapGet j.subscribers k).isSome).map GoRT.ChanOp.close :=
+  ⟨_, GenEquiv.closeSubscribers_eq fuel j order hf, fun k hk => GenEquiv.closeFold_gone order j k hk,
+    GenEquiv.closeFold_log order j hnd⟩
+
+theorem translated_removeSubscriber {σ : Type} (fuel : Nat) (j : Gen.Joe σ) (k : Nat) :
+    Gen.Joe_removeSubscriber fuel j k = .ok (GenEquiv.removeSpec j k) :=
+  GenEquiv.removeSubscriber_eq fuel j k
 
 end GoSSE.Props.C07
